@@ -57,6 +57,8 @@ struct Script {
     title: Option<String>,
     /// run through the fragmented muxer instead (H.264 configuration): write, flush every `frag_every` samples
     fragmented: Option<usize>,
+    /// distinct per script: every fragmented muxer has its own configuration
+    frag_width: u32,
     ops: Vec<Op>,
 }
 
@@ -152,11 +154,12 @@ fn opus(rng: &mut Rng, n: usize, tag: u8) -> Vec<u8> {
     d
 }
 
-fn adts(rng: &mut Rng, n: usize, tag: u8) -> Vec<u8> {
-    let len = 7 + n;
-    let mut f = vec![0u8; 7];
+fn adts(rng: &mut Rng, n: usize, tag: u8, crc: bool) -> Vec<u8> {
+    let hdr = if crc { 9 } else { 7 };
+    let len = hdr + n;
+    let mut f = vec![0u8; hdr];
     f[0] = 0xff;
-    f[1] = 0xf1;
+    f[1] = if crc { 0xf0 } else { 0xf1 };
     f[2] = (1 << 6) | (3 << 2); // AAC LC, 48 kHz
     f[3] = (2 << 6) | ((len >> 11) as u8 & 3);
     f[4] = (len >> 3) as u8;
@@ -174,12 +177,13 @@ fn make_script(rng: &mut Rng, k: usize, big: usize, profile: u64) -> Script {
         2 => [VC::Av1, VC::Vp9][rng.below(2) as usize],
         _ => [VC::H264, VC::H265, VC::Av1, VC::Vp9][rng.below(4) as usize],
     };
-    let ac = [AC::None, AC::Aac, AC::Opus][rng.below(3) as usize];
+    let ac = if profile == 1 { AC::Aac } else { [AC::None, AC::Aac, AC::Opus][rng.below(3) as usize] };
     let tag = (k as u8).wrapping_mul(37);
     let n = 3 + rng.below(3) as usize;
     let fragmented = match profile {
         1 | 2 => None,
         3 => if k == 0 { Some(1 + rng.below(3) as usize) } else { None },
+        7 => Some(1 + rng.below(2) as usize), // swarm of fragmented muxers, each with its own configuration
         _ => if rng.below(4) == 0 { Some(1 + rng.below(3) as usize) } else { None },
     };
     let vc = if fragmented.is_some() { VC::H264 } else { vc };
@@ -197,12 +201,12 @@ fn make_script(rng: &mut Rng, k: usize, big: usize, profile: u64) -> Script {
         ops.push(Op::Video { pts: i as f64 / 30.0, data, key: i == 0 });
         if ac != AC::None && fragmented.is_none() {
             let n_a = 10 + rng.below(30) as usize;
-            let data = if ac == AC::Aac { adts(rng, n_a, tag) } else { opus(rng, n_a, tag) };
+            let data = if ac == AC::Aac { adts(rng, n_a, tag, k % 2 == 1) } else { opus(rng, n_a, tag) };
             ops.push(Op::Audio { pts: i as f64 / 30.0, data });
         }
     }
     let title = if rng.below(2) == 0 { Some(format!("clip {} {}", k, rng.below(1000))) } else { None };
-    Script { vc, ac, fast_start: rng.below(2) == 0, title, fragmented, ops }
+    Script { vc, ac, fast_start: rng.below(2) == 0, title, fragmented, frag_width: 640 + 16 * k as u32, ops }
 }
 
 /// Runs one script; the result is every return value (as text) and the bytes produced.
@@ -210,7 +214,7 @@ fn run(s: &Script) -> (Vec<String>, Vec<u8>) {
     let mut rets = Vec::new();
     let mut out = Vec::new();
     if let Some(every) = s.fragmented {
-        let mut m = muxide::fragmented::FragmentedMuxer::new(muxide::fragmented::FragmentConfig { width: 640, height: 480, ..Default::default() });
+        let mut m = muxide::fragmented::FragmentedMuxer::new(muxide::fragmented::FragmentConfig { width: s.frag_width, height: 480, ..Default::default() });
         out.extend_from_slice(&m.init_segment());
         let mut queued = 0;
         for (i, op) in s.ops.iter().enumerate() {
@@ -292,8 +296,10 @@ fn main() {
     let big: usize = args.get(2).and_then(|s| s.parse().ok()).unwrap_or(17_000);
     let mode = args.get(3).cloned().unwrap_or_default();
     let mut rng = Rng(seed.wrapping_mul(0x2545F4914F6CDD1D) ^ 0x5bd1e995);
-    let threads = 2 + rng.below(2) as usize;
-    let scripts: Vec<Script> = (0..threads).map(|k| make_script(&mut rng, k, big, seed % 4)).collect();
+    // program seed mod 8 == 7: a swarm of twelve fragmented muxers; otherwise mod 4 selects the mix (see make_script)
+    let swarm = seed % 8 == 7;
+    let threads = if swarm { 12 } else { 2 + rng.below(2) as usize };
+    let scripts: Vec<Script> = (0..threads).map(|k| make_script(&mut rng, k, big, if swarm { 7 } else { seed % 4 })).collect();
     if mode == "show" {
         for (k, sc) in scripts.iter().enumerate() {
             let r = run(sc);
